@@ -191,8 +191,8 @@ CHECKS['C12'] = dict(
     rule='evaluation = one operation of a per-container random history in which every key/value passed to a put-like call lives in a fresh exactly-sized heap block that is '
          'overwritten with 0xA5 and freed right after the call, and every copying accessor (%d accessors, each required to be exercised) is called with the copy flag: the returned bytes and length are '
          'compared with the model, the pointer must be the start of its own library allocation and differ from the internal pointer, and the copy is kept in a pool that is re-verified after every later '
-         'mutation and after the container is released, then freed (double free -> ASan / ledger). ASan+UBSan build. distinct = distinct (accessor, value bytes) copies retained.' % len(C12_ACCESSORS),
-    require=['copies:' + a for a in C12_ACCESSORS] + ['retained_copies_reverified', 'caller_buffers_scribbled_and_freed', 'containers_released'],
+         'mutation and after the container is released, then freed (double free -> ASan / ledger). One in five non-removing copying reads runs with its 1st or 2nd allocation failing (single / all later): the answer may be NULL (no copy) but a non-NULL answer is held to the same independence rules. ASan+UBSan build. distinct = distinct (accessor, value bytes) copies retained.' % len(C12_ACCESSORS),
+    require=['copies:' + a for a in C12_ACCESSORS] + ['retained_copies_reverified', 'caller_buffers_scribbled_and_freed', 'containers_released', 'copying_reads_refused_under_allocation_failure'],
     assumptions=['gcc 12 ASan detects use of freed caller buffers and double frees; the ledger knows every live library allocation',
                  'values: arbitrary bytes incl. embedded/trailing NUL, C strings, all-zero elements'])
 
@@ -276,9 +276,9 @@ CHECKS['C15'] = dict(
     jobs=c15_jobs, evidence=c15_evidence,
     rule='enumeration: for every allocating operation x every state of a corpus x failure injected at the k-th allocation made inside the call (k = 1..K measured by a dry run; single failure and all-subsequent-fail): '
          'the call must either complete correctly or report failure; after a reported failure the full content/counter comparison with the model (not updated) must hold; in every case the structural walker, a battery of normal operations, '
-         'the allocation ledger at free() and ASan/UBSan must be clean, and the process must not crash. distinct = distinct (state, operation, key/variant, k, mode) tuples.',
+         'the allocation ledger at free() and ASan/UBSan must be clean, the process must not crash, and for containers built thread-safe (every other configuration) a second thread must be able to take the container lock right after the call. distinct = distinct (state, operation, key/variant, k, mode) tuples.',
     exhaustive=True,
-    require=['fault_positions_injected', 'oom_reported_failure'],
+    require=['fault_positions_injected', 'oom_reported_failure', 'lock_probes_from_a_second_thread'],
     assumptions=['allocation failures are injected through the malloc/calloc/realloc/strdup link-time interposers (NULL + errno=ENOMEM)',
                  'for void operations "reports failure" means errno==ENOMEM with contents unchanged'])
 
@@ -306,10 +306,11 @@ def c13_evidence(res, spec, tier):
 CHECKS['C13'] = dict(
     title='thread-safe option makes concurrent use linearizable', level='exploration',
     jobs=c13_jobs, evidence=c13_evidence,
-    rule='controlled mode: small client programs (2 threads x 2-3 ops, 3 threads x 2 ops, directed ones such as addlast || popfirst;popfirst, toarray || addlast;addlast, put || remove;get || get;remove, locked walk || put;remove) '
+    rule='controlled mode: small client programs (2 threads x 2-3 ops, 3 threads x 2 ops, directed ones such as addlast || popfirst;popfirst, toarray || addlast;addlast, put || remove;get || get;remove, locked walk || put;remove, find_min/find_max/find_nearest || remove;put, getat;addat || popat;popat) '
+         'over put/get/remove/clear/locked-walk (+ find_min, find_max, find_nearest with the copy flag on the tree; addat/getat/popat at positions 0-1 on list and vector) '
          'on tree, hash, unique list table, list, queue, stack, vector created thread-safe; each program is run under every schedule (depth-first over the choices at outermost lock acquire / after release / allocator calls / usleep; '
          'a worker waiting for an owned mutex is disabled) when that fits the budget, else under budget DFS + budget random schedules; every history (invocation/response stamps, results, final contents) is searched for a linearization (Wing-Gong, memoised). '
-         'stress mode: 4-8 truly concurrent threads with random delays at the same points, unique values; maps checked per key (P-compositionality), sequences by conservation / no-duplicate / not-from-the-future / per-producer FIFO rules; the same workload on a TSan build. '
+         'stress mode: 4-8 truly concurrent threads with random delays at the same points, unique values; maps checked per key (P-compositionality), sequences by conservation / no-duplicate / not-from-the-future / per-producer FIFO rules (copying gets included), ordered lookups of the tree by a stored-by-an-earlier-put rule; the same workload on a TSan build. '
          'evaluation = one schedule executed (controlled) or one operation (stress); distinct = distinct schedules (choice sequences) + distinct stress outcome vectors.',
     require=['schedules_executed', 'programs_enumerated_exhaustively', 'histories_linearizable', 'stress_histories', 'stress_histories_raced_under_tsan'],
     san_ignore=None,
@@ -480,9 +481,9 @@ CHECKS['C17'] = dict(
     rule='evaluation = one call of qurl_decode / qbase64_decode / qhex_decode / qparse_queries / qconfig_parse_str / qconfig_parse_file / qaconf parse on an input in an exactly-sized heap buffer (file parsers: memfd or scratch file) '
          'under ASan+UBSan with a 2 s CPU budget, allocation-count budget (20000; INI parser 4000+|input|/4) and live-bytes budget 64*|input|+64 MiB; in-place decoders additionally: returned length <= input length and NUL at that length. '
          'Inputs: (a) every string up to length L (quick 5, thorough 7; hex L+1, INI file form L-1) over the significant bytes of each format; (b) generated INI / Apache-style documents (refs/gen_conf.py) and random decoder inputs, mutated: truncate, duplicate, delete, bit flips, '
-         'inserted quotes/brackets/escapes, trailing backslash, 4095/4096/9000-byte lines, self- and mutually-referential ${..}, hostile @INCLUDE. ${!cmd} is neutralised by a popen interposer. distinct = distinct inputs.',
+         'inserted quotes/brackets/escapes, trailing backslash, 4095/4096/9000-byte lines, self- and mutually-referential ${..}, hostile @INCLUDE (missing, empty, over-long, and blank-padded lines of 3000-6000 bytes, concentrated on 4078..4101, that name an existing file). ${!cmd} is neutralised by a popen interposer. distinct = distinct inputs.',
     require=['inputs:qurl_decode', 'inputs:qbase64_decode', 'inputs:qhex_decode', 'inputs:qparse_queries', 'inputs:qconfig_parse_str', 'inputs:qconfig_parse_file', 'inputs:qaconf_parse',
-             'mutated_documents', 'branch:url_escape_at_end', 'branch:hex_odd_length', 'branch:apache_unclosed_quote', 'branch:apache_unclosed_section', 'branch:ini_cyclic_reference', 'branch:ini_include',
+             'mutated_documents', 'long_include_lines_naming_an_existing_file', 'branch:url_escape_at_end', 'branch:hex_odd_length', 'branch:apache_unclosed_quote', 'branch:apache_unclosed_section', 'branch:ini_cyclic_reference', 'branch:ini_include',
              'results_delivered', 'errors_reported'],
     assumptions=['gcc 12 ASan/UBSan; uninitialised reads are only visible to the valgrind job of the thorough tier',
                  '@INCLUDE cycles are not generated (the statement lists recursive ${variables}, not recursive files)',
